@@ -240,7 +240,8 @@ private:
   std::string pathstr_;
   std::string filestub_;
   bool filestubCustom_ = false;
-  NLW2_NLOptionsBasic_C nl_opts_;
+  NLW2_NLOptionsBasic_C nl_opts_
+      = NLW2_MakeNLOptionsBasic_C_Default();
 
   // NLModel stuff
   std::unique_ptr<NLHeader> p_nlheader_;
